@@ -107,6 +107,14 @@ def run_perms(case):
             targets.append({'attr': ch, 'perms': c['perms'], 'token': bytes(c['value'][:8]), 'kind': 'value', 'char': ch})
             for d, dobj in zip(c['descs'], ch.descriptors):
                 targets.append({'attr': dobj, 'perms': d['perms'], 'token': bytes(d['value'][:8]), 'kind': 'descriptor', 'char': None})
+        # characteristic DECLARATIONS: their constructor fixes the permissions, a requirement can only be assigned afterwards
+        from bumble import att as _att
+        decl_rng = random.Random(case['order'] ^ 0xDEC1)
+        for a in list(srv.gatt_server.attributes):
+            if type(a).__name__ == 'CharacteristicDeclaration' and a.characteristic in built.char_objs.values() and decl_rng.random() < 0.5:
+                perms = 0x01 | decl_rng.choice([0x04, 0x10, 0x40, 0x14, 0x04, 0x10])  # readable + a read requirement
+                a.permissions = _att.Attribute.Permissions(perms)
+                targets.append({'attr': a, 'perms': perms, 'token': bytes(a.value)[:19], 'kind': 'declaration', 'char': None})
         order = random.Random(case['order'])
         state = {'enc': False, 'authn': False, 'conn': None, 'bearers': {}, 'seen': []}
         nattr = len(srv.gatt_server.attributes)
@@ -114,7 +122,7 @@ def run_perms(case):
 
         def cur(t):
             a = t['attr']
-            return gattdb.current_value(a) if t['kind'] == 'value' else bytes(a.value)
+            return gattdb.current_value(a) if t['kind'] == 'value' else bytes(a.value)  # descriptors and declarations hold static bytes
 
         def connect():
             c0, c1 = world.connect_le(0, 1)
@@ -242,6 +250,8 @@ def run_perms(case):
                                                f'Find By Type Value confirmed the exact value of a {t["kind"]} with permissions {perms:#04x} ({", ".join(rwhy)})')
                 # ---- writes
                 for op, opcode in (('write_request', 0x12), ('write_command', 0x52)):
+                    if t['kind'] == 'declaration':
+                        break  # read side only (a declaration has no write path of its own)
                     before = cur(t)
                     new = t['token'] + bytes([order.randrange(1, 250)]) * 3 + (b'q' if op == 'write_request' else b'c')
                     rsp = ask(b, struct.pack('<BH', opcode, h) + new, expect_response=(opcode == 0x12))
